@@ -1,0 +1,117 @@
+//! Public wrappers for `Wantlist` and `WantlistState` (`--cfg beetswap_verif`).
+
+use cid::CidGeneric;
+
+use super::{WantReqState, Wantlist, WantlistState};
+use crate::proto::message::mod_Message::Wantlist as ProtoWantlist;
+
+#[derive(Debug, Clone, PartialEq)]
+pub struct WantlistSnapshot<const S: usize> {
+    pub cids: Vec<CidGeneric<S>>,
+    pub revision: u64,
+    pub set_send_dont_have: bool,
+}
+
+#[derive(Debug, Clone, PartialEq)]
+pub struct WantlistStateSnapshot<const S: usize> {
+    /// 0 = SentWantHave, 1 = GotHave, 2 = GotDontHave, 3 = SentWantBlock, 4 = GotBlock
+    pub req_state: Vec<(CidGeneric<S>, u8)>,
+    pub force_update: bool,
+    pub synced_revision: u64,
+}
+
+pub(crate) fn wantlist_snapshot<const S: usize>(w: &Wantlist<S>) -> WantlistSnapshot<S> {
+    let mut cids: Vec<_> = w.cids.iter().copied().collect();
+    cids.sort_by_key(|c| c.to_bytes());
+    WantlistSnapshot {
+        cids,
+        revision: w.revision,
+        set_send_dont_have: w.set_send_dont_have,
+    }
+}
+
+pub(crate) fn state_snapshot<const S: usize>(s: &WantlistState<S>) -> WantlistStateSnapshot<S> {
+    let mut req_state: Vec<_> = s
+        .req_state
+        .iter()
+        .map(|(cid, st)| {
+            let st = match st {
+                WantReqState::SentWantHave => 0,
+                WantReqState::GotHave => 1,
+                WantReqState::GotDontHave => 2,
+                WantReqState::SentWantBlock => 3,
+                WantReqState::GotBlock => 4,
+            };
+            (*cid, st)
+        })
+        .collect();
+    req_state.sort_by_key(|(c, _)| c.to_bytes());
+    WantlistStateSnapshot {
+        req_state,
+        force_update: s.force_update,
+        synced_revision: s.synced_revision,
+    }
+}
+
+/// `Wantlist`
+pub struct VWantlist<const S: usize>(Wantlist<S>);
+
+impl<const S: usize> VWantlist<S> {
+    pub fn new(set_send_dont_have: bool) -> Self {
+        VWantlist(Wantlist::new(set_send_dont_have))
+    }
+
+    pub fn insert(&mut self, cid: CidGeneric<S>) -> bool {
+        self.0.insert(cid)
+    }
+
+    pub fn remove(&mut self, cid: &CidGeneric<S>) -> bool {
+        self.0.remove(cid)
+    }
+
+    pub fn snapshot(&self) -> WantlistSnapshot<S> {
+        wantlist_snapshot(&self.0)
+    }
+}
+
+/// `WantlistState`
+pub struct VWantlistState<const S: usize>(WantlistState<S>);
+
+impl<const S: usize> VWantlistState<S> {
+    #[allow(clippy::new_without_default)]
+    pub fn new() -> Self {
+        VWantlistState(WantlistState::new())
+    }
+
+    pub fn is_updated(&self, wantlist: &VWantlist<S>) -> bool {
+        self.0.is_updated(&wantlist.0)
+    }
+
+    pub fn got_have(&mut self, cid: &CidGeneric<S>) {
+        self.0.got_have(cid)
+    }
+
+    pub fn got_dont_have(&mut self, cid: &CidGeneric<S>) {
+        self.0.got_dont_have(cid)
+    }
+
+    pub fn got_block(&mut self, cid: &CidGeneric<S>) {
+        self.0.got_block(cid)
+    }
+
+    pub fn wanted_again(&mut self, cid: &CidGeneric<S>) {
+        self.0.wanted_again(cid)
+    }
+
+    pub fn generate_proto_full(&mut self, wantlist: &VWantlist<S>) -> ProtoWantlist {
+        self.0.generate_proto_full(&wantlist.0)
+    }
+
+    pub fn generate_proto_update(&mut self, wantlist: &VWantlist<S>) -> ProtoWantlist {
+        self.0.generate_proto_update(&wantlist.0)
+    }
+
+    pub fn snapshot(&self) -> WantlistStateSnapshot<S> {
+        state_snapshot(&self.0)
+    }
+}
